@@ -181,9 +181,11 @@ package part
 //@   ensures @frame onlyFresh()
 //@ func newTxn
 //@   inline
+//@ spec rootOnly(o mathint) bool = (o / 2) % 2 == 1
 //@ func options.rootOnlyWatch
-//@   trusted
+//@   property C12
 //@   pure
+//@   ensures result <==> rootOnly(o)
 
 //@ func (*Tree).Txn
 //@   property C01 C11
@@ -248,31 +250,61 @@ package part
 // delete / removeChild / modify: wherever a node is stamped with the transaction's id, its
 // watch channel is nil, fresh, or recorded for closing (see above).
 //@ func (*header).prefix
-//@   trusted
+//@   property C11
 //@   pure
+//@   requires n != nil && (n.prefixP == nil ==> n.prefixLen == 0)
+//@   ensures len(result) == n.prefixLen
 //@ func (*header).children
-//@   trusted
+//@   property C11 C01
+//@   maypanic
 //@   pure
+//@   requires n != nil && (kindOf(n.flags) == 2 ==> sizeOf(n.flags) <= 4) && (kindOf(n.flags) == 3 ==> sizeOf(n.flags) <= 16) && (kindOf(n.flags) == 4 ==> sizeOf(n.flags) <= 48)
 //@   ensures kindOf(n.flags) == 2 ==> arr(result) == addr(as(node4, n).children) && off(result) == 0
 //@   ensures kindOf(n.flags) == 3 ==> arr(result) == addr(as(node16, n).children) && off(result) == 0
 //@   ensures kindOf(n.flags) == 4 ==> arr(result) == addr(as(node48, n).children) && off(result) == 0
 //@   ensures kindOf(n.flags) == 5 ==> arr(result) == addr(as(node256, n).children) && off(result) == 0
 //@   ensures kindOf(n.flags) == 1 ==> result == nil
+//@   ensures @len (kindOf(n.flags) >= 2 && kindOf(n.flags) <= 4 ==> len(result) == sizeOf(n.flags)) && (kindOf(n.flags) == 5 ==> len(result) == 256)
 //@   ensures kindOf(n.flags) < 1 || kindOf(n.flags) > 5 ==> result == nil
 //@ func (*header).cap
-//@   trusted
+//@   property C11
+//@   maypanic
 //@   pure
+//@   requires n != nil
+//@   ensures kindOf(n.flags) == 1 ==> result == 0
+//@   ensures kindOf(n.flags) == 2 ==> result == 4
+//@   ensures kindOf(n.flags) == 3 ==> result == 16
+//@   ensures kindOf(n.flags) == 4 ==> result == 48
+//@   ensures kindOf(n.flags) == 5 ==> result == 256
 //@ func (*header).setPrefix
-//@   trusted
+//@   property C11
+//@   flag nosafety
+//@   requires n != nil
 //@   modifies H_part_header_prefixP H_part_header_prefixLen
+//@   ensures unchangedExcept(H_part_header_prefixP, n) && unchangedExcept(H_part_header_prefixLen, n)
+//@   ensures len(p) > 0 ==> n.prefixP == addr(p[0])
+//@   ensures n.prefixLen == len(p) % 65536
 //@ func (*header).promote
-//@   trusted
-//@   ensures result != nil && fresh(result) && (result.watch == nil || fresh(result.watch))
-//@   ensures onlyFresh()
+//@   property C11 C12 C01
+//@   maypanic
+//@   flag nosafety
+//@   requires n != nil && 1 <= kindOf(n.flags) && kindOf(n.flags) <= 4
+//@   requires kindOf(n.flags) == 4 ==> sizeOf(n.flags) <= 48 && (forall i int :: 0 <= i && i < sizeOf(n.flags) ==> as(node48, n).children[i] != nil && as(node48, n).children[i].prefixP != nil)
+//@   ensures @fresh result != nil && fresh(result) && (result.watch == nil || fresh(result.watch))
+//@   ensures @kind kindOf(result.flags) == old(kindOf(n.flags)) + 1
+//@   ensures @owned txnIDOf(result) == txnID
+//@   ensures @watch (n.watch != nil ==> result.watch != nil) && (n.watch == nil ==> result.watch == nil)
+//@   ensures @leaf leafOf(result) == old(leafOf(n))
+//@   ensures @prefix result.prefixP == old(n.prefixP) && result.prefixLen == old(n.prefixLen)
+//@   ensures @frame onlyFresh()
 //@ func newLeaf
-//@   trusted
-//@   ensures result != nil && fresh(result) && (result.watch == nil || fresh(result.watch))
-//@   ensures onlyFresh()
+//@   property C11 C12 C01
+//@   flag nosafety
+//@   ensures @fresh result != nil && fresh(result) && (result.watch == nil || fresh(result.watch))
+//@   ensures @kind kindOf(result.flags) == 1 && sizeOf(result.flags) == 0
+//@   ensures @watch-unless-root-only !rootOnly(o) ==> result.watch != nil
+//@   ensures @content result.value == value && result.keyLen == len(key) % 65536 && result.prefixLen == len(prefix) % 65536 && (len(prefix) > 0 ==> result.prefixP == addr(prefix[0])) && (len(key) > 0 ==> result.keyP == addr(key[0]))
+//@   ensures @frame onlyFresh()
 //@ func (*Txn).removeChild
 //@   property C12 C06 C01
 //@   flag nosafety
